@@ -1,8 +1,197 @@
+/-
+  driver_squeeth — JSON protocol around Demeter.Squeeth.
+
+  request  {"fn":"step","ctx":"py"|"exact","state":S,"env":E,"op":O}
+  answer   {"err":null|{"cls","cause"},"state":S',"actions":[…],"out":[…],"win":{"weth":[…],"osqth":[…]}}
+  S = {"wallet":[[name,bal]…],"vaults":[[id,{"coll","short","nft":null|[lo,hi]}]…],"maxId":n,
+       "positions":[[[lo,hi],{"liquidity","p0","p1","transferred"}]…]}            (log starts empty)
+  E = {"nf","weth","osqth","now":null|int,"rows":[[t,weth,osqth]…],"uniPrice","uniOpen",
+       "oracle":[[[p…],mean]…]}     the geometric means captured from the real calc_twap_price, keyed by window
+  The model selects the TWAP window itself; a window that the real code never passed to calc_twap_price is
+  answered by {"error":"oracle-miss …"} — that is how the window selection is tied to the code.
+-/
 import Demeter.Drv.Json
+import Demeter.Squeeth
+import Demeter.Squeeth.Views
 namespace Demeter.Drv
-open Demeter Lean
+open Demeter Demeter.Squeeth Lean
+
+namespace Sq
+
+def posKeyOf (j : Json) : Except String PosKey :=
+  match j with
+  | .arr #[a, b] => do
+    let x ← jRatOf a; let y ← jRatOf b
+    if x.den = 1 ∧ y.den = 1 then pure (x.num, y.num) else throw "tick not an integer"
+  | _ => throw s!"not a position key: {j.compress}"
+
+def posKeyJ (k : PosKey) : Json := .arr #[intJ k.1, intJ k.2]
+
+def optPosKey (j : Json) (k : String) : Except String (Option PosKey) :=
+  match jOpt j k with
+  | none => pure none
+  | some v => do pure (some (← posKeyOf v))
+
+def pairArr (j : Json) : Except String (Json × Json) :=
+  match j with
+  | .arr #[a, b] => pure (a, b)
+  | _ => throw s!"not a pair: {j.compress}"
+
+def natOf (j : Json) : Except String Nat := do
+  let r ← jRatOf j
+  if r.den = 1 ∧ r.num ≥ 0 then pure r.num.toNat else throw s!"not a Nat: {j.compress}"
+
+def stateOf (j : Json) : Except String State := do
+  let w ← (← jArr j "wallet").toList.mapM fun x => do
+    let (a, b) ← pairArr x
+    match a with
+    | .str n => pure (n, ← jRatOf b)
+    | _ => throw "wallet key"
+  let vs ← (← jArr j "vaults").toList.mapM fun x => do
+    let (a, b) ← pairArr x
+    let v : Vault := { coll := ← jRat b "coll", short := ← jRat b "short", nft := ← optPosKey b "nft" }
+    pure (← natOf a, v)
+  let ps ← (← jArr j "positions").toList.mapM fun x => do
+    let (a, b) ← pairArr x
+    let p : UPos := { liquidity := ← jNat b "liquidity", pending0 := ← jRat b "p0", pending1 := ← jRat b "p1",
+                      transferred := ← jBool b "transferred" }
+    pure (← posKeyOf a, p)
+  pure { wallet := w, vaults := vs, maxId := ← jNat j "maxId", positions := ps, log := [] }
+
+def stateJ (s : State) : Json :=
+  Json.mkObj [
+    ("wallet", .arr (s.wallet.map fun (n, b) => Json.arr #[.str n, ratJ b]).toArray),
+    ("vaults", .arr (s.vaults.map fun (k, v) => Json.arr #[natJ k, Json.mkObj [
+        ("coll", ratJ v.coll), ("short", ratJ v.short),
+        ("nft", match v.nft with | some p => posKeyJ p | none => .null)]]).toArray),
+    ("maxId", natJ s.maxId),
+    ("positions", .arr (s.positions.map fun (k, p) => Json.arr #[posKeyJ k, Json.mkObj [
+        ("liquidity", natJ p.liquidity), ("p0", ratJ p.pending0), ("p1", ratJ p.pending1),
+        ("transferred", .bool p.transferred)]]).toArray)]
+
+def actionJ : Action → Json
+  | .addVault id c => Json.mkObj [("k", "addVault"), ("id", natJ id), ("n", .arr #[natJ c])]
+  | .updShort id a b => Json.mkObj [("k", "updShort"), ("id", natJ id), ("n", .arr #[ratJ a, ratJ b])]
+  | .updColl id a b => Json.mkObj [("k", "updColl"), ("id", natJ id), ("n", .arr #[ratJ a, ratJ b])]
+  | .depositLp id p => Json.mkObj [("k", "depositLp"), ("id", natJ id), ("pos", posKeyJ p), ("n", .arr #[])]
+  | .withdrawLp id p => Json.mkObj [("k", "withdrawLp"), ("id", natJ id), ("pos", posKeyJ p), ("n", .arr #[])]
+  | .reduceDebt id p a b c d f g h => Json.mkObj [("k", "reduceDebt"), ("id", natJ id), ("pos", posKeyJ p),
+      ("n", .arr #[ratJ a, ratJ b, ratJ c, ratJ d, ratJ f, ratJ g, ratJ h])]
+  | .liquidation id a b c d => Json.mkObj [("k", "liquidation"), ("id", natJ id), ("n", .arr #[ratJ a, ratJ b, ratJ c, ratJ d])]
+  | .uniRemove p a b c d f g => Json.mkObj [("k", "uniRemove"), ("pos", posKeyJ p),
+      ("n", .arr #[ratJ a, ratJ b, natJ c, natJ d, ratJ f, ratJ g])]
+  | .uniCollect p a b c d => Json.mkObj [("k", "uniCollect"), ("pos", posKeyJ p), ("n", .arr #[ratJ a, ratJ b, ratJ c, ratJ d])]
+
+def ratList (j : Json) : Except String (List Rat) :=
+  match j with
+  | .arr a => a.toList.mapM jRatOf
+  | _ => throw "not a list"
+
+/-- the environment and the oracle table -/
+def envOf (j : Json) : Except String (Env × List (List Rat × Rat)) := do
+  let rows ← (← jArr j "rows").toList.mapM fun x => do
+    match x with
+    | .arr #[t, a, b] => do
+      let tt ← jRatOf t
+      pure ({ t := tt.num, weth := ← jRatOf a, osqth := ← jRatOf b } : Row)
+    | _ => throw "row"
+  let table ← (← jArr j "oracle").toList.mapM fun x => do
+    let (a, b) ← pairArr x
+    pure (← ratList a, ← jRatOf b)
+  let now ← match jOpt j "now" with
+    | none => pure none
+    | some v => do pure (some (← jRatOf v).num)
+  let mean : List Rat → Rat := fun w => match table.find? (fun p => p.1 == w) with
+    | some p => p.2
+    | none => 0
+  pure ({ nf := ← jRat j "nf", weth := ← jRat j "weth", osqth := ← jRat j "osqth", now := now, rows := rows,
+          uniPrice := ← jRat j "uniPrice", uniOpen := ← jBool j "uniOpen", mean := mean }, table)
+
+/-- every window the model may hand to the oracle must have been seen by the real `calc_twap_price` -/
+def oracleCheck (e : Env) (table : List (List Rat × Rat)) : Except String Unit :=
+  match e.now with
+  | none => pure ()
+  | some now =>
+    let w := window e now
+    if w.isEmpty then throw "empty-window"
+    else
+      let ww := w.map (·.price .weth)
+      let wo := w.map (·.price .osqth)
+      if !(table.any (fun p => p.1 == ww)) then throw s!"oracle-miss weth window {ww.map showRat}"
+      else if !(table.any (fun p => p.1 == wo)) then throw s!"oracle-miss osqth window {wo.map showRat}"
+      else pure ()
+
+def opOf (j : Json) : Except String Op := do
+  let k ← jStr j "k"
+  match k with
+  | "openMint" =>
+    let vk ← match jOpt j "vk" with
+      | none => pure none
+      | some v => do pure (some (← natOf v))
+    pure (.openMint (← jRat j "deposit") (← jRat j "mint") vk (← optPosKey j "pos"))
+  | "deposit" => pure (.deposit (← jNat j "vk") (← jRat j "eth"))
+  | "depositUni" => pure (.depositUni (← jNat j "vk") (← posKeyOf (← jObj j "pos")))
+  | "withdrawUni" => pure (.withdrawUni (← jNat j "vk") (← posKeyOf (← jObj j "pos")))
+  | "burnWithdraw" => pure (.burnWithdraw (← jNat j "vk") (← jRat j "burn") (← jRat j "withdraw"))
+  | "liquidate" => pure (.liquidate (← jNat j "vk"))
+  | "update" => pure .update
+  | "reduceDebt" => pure (.reduceDebt (← jNat j "vk") (← jBool j "payBounty"))
+  | "uniRemove" => pure (.uniRemove (← posKeyOf (← jObj j "pos")))
+  | _ => throw s!"unknown op {k}"
+
+def errJ : Option Err → Json
+  | none => .null
+  | some e => Json.mkObj [("cls", .str e.cls), ("cause", .str e.cause)]
+
+def winJ (e : Env) : Json :=
+  match e.now with
+  | none => .null
+  | some now =>
+    let w := window e now
+    Json.mkObj [("t", .arr (w.map (fun r => intJ r.t)).toArray),
+                ("weth", .arr (w.map (fun r => ratJ r.weth)).toArray),
+                ("osqth", .arr (w.map (fun r => ratJ r.osqth)).toArray)]
+
+def exceptJ {α : Type} (f : α → Json) : Except Err α → Json
+  | .ok a => Json.mkObj [("ok", f a)]
+  | .error e => Json.mkObj [("err", errJ (some e))]
+
+end Sq
+open Sq
 
 def squeethHandlers : List (String × Handler) := []
-def squeethJHandlers : List (String × JHandler) := []
+
+def squeethJHandlers : List (String × JHandler) := [
+  ("step", fun j => do
+    let cx := jCtx j
+    let s ← stateOf (← jObj j "state")
+    let (e, table) ← envOf (← jObj j "env")
+    oracleCheck e table
+    let op ← opOf (← jObj j "op")
+    let r := step cx e s op
+    pure (Json.mkObj [("err", errJ r.err), ("state", stateJ r.st), ("actions", .arr (r.st.log.map actionJ).toArray),
+                      ("out", .arr (r.out.map ratJ).toArray), ("win", winJ e)])),
+  -- views on a state: per-vault (effective collateral, status), market balance, pool balance
+  ("views", fun j => do
+    let cx := jCtx j
+    let s ← stateOf (← jObj j "state")
+    let (e, table) ← envOf (← jObj j "env")
+    oracleCheck e table
+    let vs := s.vaults.map fun (k, _) => Json.arr #[natJ k,
+      exceptJ ratJ (effColl cx e s k),
+      exceptJ (fun (p : Bool × Bool) => Json.arr #[.bool p.1, .bool p.2]) (vaultStatus cx e s k)]
+    let bal := exceptJ (fun (b : Balance) => Json.mkObj [
+      ("net_value", ratJ b.netValue), ("collateral_amount", ratJ b.collEth), ("collateral_value", ratJ b.collValue),
+      ("osqth_long_amount", ratJ b.long), ("osqth_short_amount", ratJ b.short), ("osqth_short_in_eth", ratJ b.shortEth),
+      ("osqth_net_amount", ratJ b.net), ("collateral_ratio", ratJ b.ratio), ("vault_count", natJ b.count)])
+      (marketBalance cx e s)
+    pure (Json.mkObj [("vaults", .arr vs.toArray), ("balance", bal), ("uni_net_value", ratJ (uniNetValue cx e s)),
+                      ("uni_count", natJ (uniCount s)),
+                      ("twap", Json.mkObj [("weth", ratJ (twap e .weth)), ("osqth", ratJ (twap e .osqth))]),
+                      ("sqrtP", natJ (uniSqrtP cx e.uniPrice)), ("win", winJ e)])),
+  ("window", fun j => do
+    let (e, _) ← envOf (← jObj j "env")
+    pure (Json.mkObj [("win", winJ e)]))
+]
 
 end Demeter.Drv
